@@ -326,6 +326,21 @@ RecTextClause(m, ev) ==
   ELSE IF Len(ev.p1) # Len(ev.p2) \/ \E k \in 1..Len(ev.p1) : ~SameTP(ev.p1[k], ev.p2[k]) THEN "reparsed-points-differ"
   ELSE "ok"
 
+\* C15: one calendar helper query  [fn, a, b] -> res, judged under the mode the specification tracks
+CalQClause(m, ev) ==
+  IF ~ev.ok THEN "raised-" \o ev.cls
+  ELSE IF ev.res # Fresh(m, [fn |-> ev.fn, a |-> ev.a, b |-> ev.b]) THEN "stale-or-wrong-" \o ev.fn
+  ELSE "ok"
+
+\* C16: after every public operation the digest of every earlier slot is unchanged (dig is the specification's
+\* copy of the pool digests; a placeholder slot aliases an operand and must carry that operand's digest)
+OpClause(ev) ==
+  IF Len(ev.dig) < Len(dig) THEN "pool-shrank"
+  ELSE IF \E i \in 1..Len(dig) : ev.dig[i] # dig[i] THEN
+       "slot-" \o ToString(CHOOSE i \in 1..Len(dig) : ev.dig[i] # dig[i]) \o "-changed-by-" \o ev.name
+  ELSE IF ev.alias > 0 /\ Len(ev.dig) > Len(dig) /\ ev.dig[Len(ev.dig)] # ev.dig[ev.alias] THEN "alias-digest-differs"
+  ELSE "ok"
+
 \* ---------------------------------------------------------------------- the step relation
 Clause(ev) ==
   CASE ev.op = "Begin"    -> "ok"
@@ -350,6 +365,9 @@ Clause(ev) ==
     [] ev.op = "Shift"    -> ShiftClause(mode, ev)
     [] ev.op = "RecEq"    -> RecEqClause(mode, ev)
     [] ev.op = "RecText"  -> RecTextClause(mode, ev)
+    [] ev.op = "CalQ"     -> CalQClause(mode, ev)
+    [] ev.op = "PoolInit" -> "ok"
+    [] ev.op = "Op"       -> OpClause(ev)
     [] ev.op = "Raised"   -> "raised-" \o ev.cls
     [] OTHER -> "unknown-event-kind"
 
@@ -369,7 +387,10 @@ Step ==
        /\ ser' = CASE ev.op \in {"Begin", "IterOpen"} -> <<>>
                     [] ev.op = "IterNext" -> Append(ser, ev.q)
                     [] OTHER -> ser
-       /\ dig' = dig /\ zone' = zone
+       /\ dig' = CASE ev.op = "Begin" -> <<>>
+                    [] ev.op \in {"PoolInit", "Op"} -> ev.dig
+                    [] OTHER -> dig
+       /\ zone' = zone
   /\ l' = l + 1
 
 Finish ==
